@@ -10,6 +10,8 @@ def run(check, ctx):
     repo = ctx.repo
     cdb = ctx.cdb
     chacha_seek_rows(check, repo)
+    chacha_init_rows(check, repo)
+    ctr_icb_rows(check, repo)
     tu = cdb.tu("src/raw_ctr.c")
     code = cdb.macro_int(tu, "ERR_CTR_REPEATED_KEY_STREAM")
     mod = repo.module("Crypto.Cipher._mode_ctr")
@@ -96,3 +98,102 @@ def chacha_seek_rows(check, repo):
     check.ob("G", "G|chacha20.seek.position", not wrong, mod.path, fn.lineno,
              extracted="; ".join(wrong[:3]) if wrong else "%d positions: accepted ones reach chacha20_seek unchanged (block = high*2^32 + low, offset < 64); negative positions and block numbers >= 2^64 raise ValueError" % n,
              expected="a position beyond the key stream is an error, never another position (ctypes' c_ulong wraps modulo 2^64)")
+
+
+def chacha_init_rows(check, repo):
+    """Which counter the native layer runs: chacha20_init() selects the 64-bit block counter for an 8-byte nonce and
+    the 32-bit one (limit 2^32 blocks, ERR_MAX_DATA beyond) for a 12-byte nonce.  XChaCha20 (24-byte nonce) is ChaCha20
+    under the HChaCha20 subkey with the 12-byte nonce 00000000 || nonce[16:24] (draft-irtf-cfrg-xchacha 2.3): handing down
+    the 8-byte tail gives the same key stream below 256 GiB and removes the limit above it."""
+    from ..absint import Interp
+    from ..absstate import State
+    CH = "Crypto.Cipher.ChaCha20"
+    mod = repo.module(CH)
+    fn = repo.func(mod, "ChaCha20Cipher.__init__")
+    wrong = []
+    key = bytes(range(32))
+    for nl in (8, 12, 24):
+        nonce = bytes(0x80 + j for j in range(nl))
+        seen = []
+        it = Interp(repo, max_depth=2, extra_models={CH + "._HChaCha20": lambda i, a, kw, st, node: b"SUB:" + bytes(a[0])[:12] + bytes(a[1]) if all(isinstance(x, (bytes, bytearray)) for x in a[:2]) else None})
+        it.ffi_models = {"chacha20_init": lambda i, a, kw, st, node, seen=seen: seen.append(list(a)) or 0}
+        st = State()
+        me = it.new_obj(st, mod, repo.cls(mod, "ChaCha20Cipher"), havoc=False)
+        res = it.run(mod, fn, {"key": key, "nonce": nonce}, self_obj=me, state=st)
+        if nl == 24:
+            want = (b"SUB:" + key[:12] + nonce[:16], 32, b"\x00" * 4 + nonce[16:], 12)
+        else:
+            want = (key, 32, nonce, nl)
+        got = tuple(bytes(x) if isinstance(x, (bytes, bytearray)) else x for x in seen[0][1:5]) if len(seen) == 1 and len(seen[0]) >= 5 else None
+        if got != want or res.raises():
+            wrong.append("%d-byte nonce: chacha20_init receives %s" % (nl, "key %s.., nonce %s (%r bytes)" % (
+                got[0][:4].hex() if isinstance(got[0], bytes) else got[0], got[2].hex() if isinstance(got[2], bytes) else got[2], got[3]) if got else "nothing determined (%d calls)" % len(seen)))
+        heap = res.returns()[0].state.heap[me.ident] if res.returns() else {}
+        if res.returns() and heap.get("nonce") != nonce:
+            wrong.append("%d-byte nonce: the object reports nonce %r" % (nl, heap.get("nonce")))
+    check.ob("K-pw", "K-pw|chacha20.init.counter", not wrong, mod.path, fn.lineno,
+             extracted="; ".join(wrong[:3]) if wrong else "8- and 12-byte nonces reach chacha20_init unchanged; a 24-byte nonce as HChaCha20 subkey + 00000000 || nonce[16:] (12 bytes: 32-bit block counter)",
+             expected="RFC 8439 2.3 / draft-irtf-cfrg-xchacha 2.3: the nonce length handed down selects the counter width whose overflow is reported")
+
+
+def ctr_icb_rows(check, repo):
+    """The initial counter block handed to the native CTR layer, as a value: Counter.new() and _create_ctr_cipher are
+    interpreted together for counter widths 1..16, both byte orders and initial values of every byte length up to the
+    width (0, 1, 255, 256, values with distinct bytes, the maximum), and for the nonce / initial_value form; expected
+    prefix || initial_value encoded on exactly counter_len bytes in the chosen byte order || suffix (SP 800-38A B.2),
+    with prefix length, width and byte order passed on unchanged.  The increment in the native code (decided by
+    K-sym|c|ctr) starts from this block."""
+    from ..absint import Interp
+    from ..absstate import State
+    from ..par import pmap
+    CTR = "Crypto.Cipher._mode_ctr"
+    CNT = "Crypto.Util.Counter"
+    mod, cmod = repo.module(CTR), repo.module(CNT)
+    fn, cfn = repo.func(mod, "_create_ctr_cipher"), repo.func(cmod, "new")
+    jobs = []
+    for cl in (1, 2, 3, 4, 8, 12, 15, 16):
+        vals = set([0, 1, 255, (1 << (8 * cl)) - 1, (1 << (8 * cl)) - 2, 1 << (8 * cl - 1)])
+        for nb in range(1, cl + 1):
+            vals.add(int.from_bytes(bytes(range(1, nb + 1)), "big"))
+            vals.add(1 << (8 * (nb - 1)))
+        for le in (False, True):
+            for v in sorted(vals):
+                pl = (16 - cl) // 2
+                jobs.append(("counter", cl, pl, 16 - cl - pl, le, v))
+        for v in sorted(vals)[:: 2]:
+            jobs.append(("nonce", cl, 16 - cl, 0, False, v))
+
+    def run(job):
+        kind, cl, pl, sl, le, v = job
+        prefix, suffix = bytes(0xA0 + j for j in range(pl)), bytes(0xE0 + j for j in range(sl))
+        seen = []
+
+        def m_ctrmode(i, a, kw, st, node):
+            seen.append(tuple(bytes(x) if isinstance(x, (bytes, bytearray)) else x for x in a[1:5]))
+            return i.new_obj(st, label="ctrmode")
+        it = Interp(repo, max_depth=4, extra_models={CTR + ".CtrMode": m_ctrmode},
+                    method_models={"_create_base_cipher": lambda i, base, a, kw, st, node: (a[0].pop("key", None), i.new_obj(st, label="raw"))[1] if a and isinstance(a[0], dict) else None})
+        st = State()
+        factory = it.new_obj(st, label="factory", attrs={"block_size": 16})
+        if kind == "counter":
+            r = it.run(cmod, cfn, {"nbits": 8 * cl, "prefix": prefix, "suffix": suffix, "initial_value": v, "little_endian": le, "allow_wraparound": False}, state=st)
+            if len(r.returns()) != 1 or r.raises() or not isinstance(r.returns()[0].value, dict):
+                return "Counter.new not decided"
+            kwargs = {"key": b"k" * 16, "counter": r.returns()[0].value}
+            st = r.returns()[0].state
+            st.frames = [{}]
+        else:
+            kwargs = {"key": b"k" * 16, "nonce": prefix, "initial_value": v}
+        res = it.run(mod, fn, {"factory": factory, "kwargs": kwargs}, state=st)
+        want = (prefix + v.to_bytes(cl, "little" if le else "big") + suffix, pl, cl, le)
+        if res.raises() or len(seen) != 1:
+            return "raises %s / %d constructions" % (res.raise_classes(), len(seen))
+        if seen[0] != want:
+            return "CtrMode receives block %s (prefix %r, width %r, little_endian %r), expected %s" % (
+                seen[0][0].hex() if isinstance(seen[0][0], bytes) else seen[0][0], seen[0][1], seen[0][2], seen[0][3], want[0].hex())
+        return None
+    errs = pmap(run, jobs)
+    wrong = ["%s, %d-byte counter, %s, initial value %#x: %s" % (j[0], j[1], "little endian" if j[4] else "big endian", j[5], e) for j, e in zip(jobs, errs) if e]
+    check.ob("K-pw", "K-pw|ctr.initial_block", not wrong, mod.path, fn.lineno,
+             extracted=("%d of %d rows differ: " % (len(wrong), len(jobs)) + "; ".join(wrong[:3])) if wrong else "%d (width, byte order, initial value) rows: the first counter block is prefix || value on counter_len bytes || suffix" % len(jobs),
+             expected="SP 800-38A B.2: the counter field holds initial_value in the declared byte order, zero-padded to its width on the most significant side")
